@@ -28,16 +28,16 @@ def ctl(families_q, families_t, dq, dt, rule, required, nontrivial=None, emit_q=
 
 
 PLANS = {
-    "C01": ctl(["reap", "force", "all_reap"], ["reap", "reap@v2", "force", "cordon", "all_reap"],
-               [D("reap", odd=True, faults=12), D("mix", lag=True, odd=True), D("cycle", n=20, steps=90, groups=1, faults=3, dry=0),
+    "C01": ctl(["reap", "force", "crash", "all_reap"], ["reap", "reap@v2", "force", "crash", "cordon", "all_reap"],
+               [D("reap", odd=True, faults=12, enum=10), D("mix", lag=True, odd=True), D("cycle", n=20, steps=90, groups=1, faults=3, dry=0),
                 # real time (4 s ticks, really elapsing): time the controller remembers by itself ages too
                 D("cycle", n=32, steps=36, procs=1, par=32, groups=1, faults=3, dry=0, realtime="4s")],
-               [D("reap", n=60, steps=100, procs=8, odd=True, faults=12), D("mix", n=60, steps=100, procs=8, lag=True, odd=True),
+               [D("reap", n=60, steps=100, procs=8, odd=True, faults=12, enum=10), D("mix", n=60, steps=100, procs=8, lag=True, odd=True),
                 D("cycle", n=80, steps=120, procs=8, groups=1, faults=3, dry=0),
                 D("cycle", n=64, steps=70, procs=2, par=32, groups=1, faults=3, dry=0, realtime="4s")],
                "cases: every (state, fault set) sampled from the TLC-explored graphs replayed as one real scan, plus scans of seeded random histories; "
                "non-trivial: a scan in which a node was removed under clause (a), (b) or (c), or a tainted / force-tainted / cordoned node was kept; distinct by (pre-state, fault set)",
-               ["C01:removed-a", "C01:removed-b", "C01:removed-c", "C01:kept-soft-not-passed", "C01:kept-busy-before-hard",
+               ["C01:crashed-mid-scan", "C01:removed-a", "C01:removed-b", "C01:removed-c", "C01:kept-soft-not-passed", "C01:kept-busy-before-hard",
                 "C01:kept-unreadable-taint-time", "C01:kept-cordoned", "C01:kept-force-busy"]),
     "C02": ctl(["lock"], ["lock", "lock@v2", "lock@v3"],
                [D("lock", twin=True, faults=8), D("mix", twin=True), D("lock", n=32, steps=32, procs=1, par=32, groups=2, faults=5, realtime="4s")],
